@@ -102,7 +102,14 @@ def _major_of_return(fn, params, r):
             raise AnalysisError(f"order algebra: expected exactly one inner loop directly inside the outer loop in {fn.qual}")
         inner = inners[0]
         apps = [x for x in calls_in(inner) if unparse(x.func) == f"{lst}.append"]
-        if len(apps) != 1 or len(inner.body) != 1:
+        local = {}
+        rest = []
+        for st in inner.body:
+            if isinstance(st, ast.Assign) and len(st.targets) == 1 and isinstance(st.targets[0], ast.Name) and st.targets[0].id not in local:
+                local[st.targets[0].id] = _subst(st.value, local)
+            else:
+                rest.append(st)
+        if len(apps) != 1 or len(rest) != 1 or not (isinstance(rest[0], ast.Expr) and rest[0].value is apps[0]):
             raise AnalysisError(f"order algebra: expected a single `{lst}.append(...)` in the inner loop of {fn.qual}")
         all_apps = [x for x in calls_in(fn.node) if isinstance(x.func, ast.Attribute) and unparse(x.func.value) == lst and x.func.attr in ("append", "insert", "extend")]
         if len(all_apps) != 1:
@@ -110,8 +117,45 @@ def _major_of_return(fn, params, r):
         post = [x for x in calls_in(fn.node) if isinstance(x.func, ast.Attribute) and unparse(x.func.value) == lst and x.func.attr in ("reverse", "sort")]
         if post or "reversed(" in unparse(r) or "[::-1]" in unparse(r):
             raise AnalysisError(f"order algebra: list `{lst}` is reordered before stacking in {fn.qual}")
-        return _from_loops(fn, params, unparse(outer.target), outer.iter, unparse(inner.target), inner.iter, apps[0].args[0])
+        return _from_loops(fn, params, unparse(outer.target), outer.iter, unparse(inner.target), inner.iter, _subst(apps[0].args[0], local))
     raise AnalysisError(f"order algebra: unmodelled stacking argument `{unparse(arg)}` in {fn.qual}")
+
+
+def _subst(e, local):
+    """replace the names bound in the loop body by their defining expressions"""
+    import copy
+    if not local:
+        return e
+
+    class S(ast.NodeTransformer):
+        def visit_Name(self, n):
+            if isinstance(n.ctx, ast.Load) and n.id in local:
+                return copy.deepcopy(local[n.id])
+            return n
+
+    return S().visit(copy.deepcopy(e))
+
+
+MASKING_CALLS = ("np.where", "np.nan_to_num", "np.select", "np.choose", "np.putmask", "np.place", "np.nanprod", "np.nansum", "np.fmax", "np.fmin",
+                 "np.nanmax", "np.nanmin")
+
+
+def product_element(elt, params):
+    """classification of the element a pairwise combinator stacks: 'product' (one column of each operand multiplied),
+    'masked' (the product is post-processed / selected by a data-dependent condition), or None (not recognised)"""
+    def col(e):
+        return isinstance(e, ast.Subscript) and isinstance(e.value, ast.Name) and e.value.id in params
+
+    if isinstance(elt, ast.BinOp) and isinstance(elt.op, ast.Mult) and col(elt.left) and col(elt.right) and elt.left.value.id != elt.right.value.id:
+        return "product"
+    if isinstance(elt, ast.Call) and dotted(elt.func) == "np.multiply" and len(elt.args) == 2 and all(col(a) for a in elt.args) and not elt.keywords:
+        return "product"
+    for n in ast.walk(elt):
+        if isinstance(n, ast.Call) and ((dotted(n.func) or "") in MASKING_CALLS or (isinstance(n.func, ast.Attribute) and n.func.attr in ("fillna", "clip", "round", "astype"))):
+            return "masked"
+        if isinstance(n, ast.Call) and any(k.arg == "where" for k in n.keywords):
+            return "masked"
+    return None
 
 
 def _khatri(node):
@@ -168,8 +212,10 @@ def _from_loops(fn, params, ovar, oiter, ivar, iiter, elt):
     if idx.get(ovar) != {op} or idx.get(ivar) != {ip}:
         raise_v = f"outer variable `{ovar}` ranges over {op} but indexes {sorted(idx.get(ovar, []))}; inner `{ivar}` ranges over {ip} but indexes {sorted(idx.get(ivar, []))}"
         return (-1, "index/range mismatch: " + raise_v)
-    if not (isinstance(elt, ast.BinOp) and isinstance(elt.op, ast.Mult)):
+    kind = product_element(elt, params)
+    if kind is None:
         raise AnalysisError(f"order algebra: appended element `{unparse(elt)}` is not a product of one column of each operand in {fn.qual}")
+    fn._pairwise_element = (kind, unparse(elt))
     return params.index(op), f"outer loop runs over the columns of `{op}`, inner over `{ip}`: `{op}` is major"
 
 
